@@ -26,8 +26,8 @@ RULE = ("case = (method, constraint-kind assignment, mask/options variant); non-
 ASSUMPTIONS = ["test points closer than 1e-7 to a constraint boundary are skipped", "a problem without any finite variable bound may be passed with bounds=None"]
 EXHAUSTIVE = {"quick": True, "thorough": True}
 BOUNDS = {"quick": {"max_nonlinear": 2, "max_linear": 2}, "thorough": {"max_nonlinear": 3, "max_linear": 3}}
-REQUIRED = {"quick": {"captured_problems": 1861, "points_compared": 38084, "jacobians_checked": 3000, "max_iterations_checked": 1000, "rejected_combinations": 2000, "masked_problems": 800, "options_not_dict_checked": 500, "option_plumbing_cases": 80, "with_output_directory": 500, "__nontrivial__": 1861},
-            "thorough": {"captured_problems": 47338, "points_compared": 1193908, "jacobians_checked": 100000, "max_iterations_checked": 30000, "rejected_combinations": 100000, "masked_problems": 30000, "options_not_dict_checked": 15000, "option_plumbing_cases": 800, "with_output_directory": 12000, "__nontrivial__": 45000}}
+REQUIRED = {"quick": {"captured_problems": 1861, "points_compared": 38084, "jacobians_checked": 3000, "max_iterations_checked": 1000, "rejected_combinations": 2000, "masked_problems": 800, "options_not_dict_checked": 500, "option_plumbing_cases": 80, "with_output_directory": 500, "linear_rows_with_identical_coefficients": 150, "__nontrivial__": 1861},
+            "thorough": {"captured_problems": 47338, "points_compared": 1193908, "jacobians_checked": 100000, "max_iterations_checked": 30000, "rejected_combinations": 100000, "masked_problems": 30000, "options_not_dict_checked": 15000, "option_plumbing_cases": 800, "with_output_directory": 12000, "linear_rows_with_identical_coefficients": 4000, "__nontrivial__": 45000}}
 METHODS = ["slsqp", "cobyla", "l-bfgs-b", "tnc", "nelder-mead", "powell", "bfgs", "cg", "newton-cg", "differential_evolution", "scipy/default"]
 KINDS = ["eq", "lower", "upper", "two", "free"]
 V = 3
@@ -119,6 +119,11 @@ def run_case(case, obs):
                     A[i, fx[0]], A[i, fx[1]] = cval, -cval
                     obs.count("linear_rows_with_cancelling_fixed_coefficients")
         A[np.all(A == 0, axis=1), 0] = 1.0
+        if nl >= 2 and rng.random() < 0.25:
+            # the same combination of variables limited by two rows (a two-sided limit written as two one-sided rows, say):
+            # two rows with the same coefficients are two restrictions
+            A[1] = A[0]
+            obs.count("linear_rows_with_identical_coefficients")
         ll, lu = zip(*[_bound(k, rng) for k in case["kinds"][nn:]])
         spec["linear"] = {"coefficients": A.tolist(), "lower_bounds": list(ll), "upper_bounds": list(lu)}
     optform = ["none", "empty", "dict", "dict2"][int(rng.integers(4))]
